@@ -13,7 +13,7 @@ LEVEL = "model_checking"
 TECHNIQUE = "exhaustive enumeration of (status byte x sense x transport x call path x raw flag) at depth 1 and of all status/command histories up to a depth bound on real device objects over stand-in bindings, judged by a status->outcome reference model"
 RULE = ("depth 1: all 256 status bytes x {SG_IO, iSCSI} x {device.execute, SCSI.execute} x raw-sense {off,on} x (READ(10) x 5 sense buffers + 7 other commands incl. ATA PASS-THROUGH with/without CK_COND), and all 256 "
         "status bytes (over iSCSI also 12 status values beyond one byte incl. libiscsi's REDIRECT / CANCELLED / ERROR / TIMEOUT pseudo-statuses) x both transports x each of the 38 facade methods on every command set offering it x 2 sense buffers, and CHECK CONDITION x 6 sense keys x 6 additional sense codes (thorough: 16 x 12) x fixed / descriptor format through every facade method; the same command inside `with device:` / `with SCSI(device):` blocks x 8 statuses x 6 values handed back by the binding's disconnect (the error must leave the block); histories: all "
-        "sequences up to length L (3 quick, 4 thorough; steps may also be a transport I/O error, ENODEV, a re-plug with ENODEV, or a KeyboardInterrupt arriving inside the binding - passed on as it is) over {GOOD, CHECK CONDITION, BUSY, RESERVATION CONFLICT, 7Fh} x {TEST UNIT READY, "
+        "sequences up to length L (3 quick, 4 thorough; steps may also be a transport I/O error, ENODEV, a re-plug with ENODEV, a KeyboardInterrupt arriving inside the binding - passed on as it is -, or the facade re-pointed by call to another device whose INQUIRY is answered GOOD / CHECK CONDITION / BUSY) over {GOOD, CHECK CONDITION, BUSY, RESERVATION CONFLICT, 7Fh} x {TEST UNIT READY, "
         "READ(10), INQUIRY} on one device per transport, every step judged and every GOOD step's result compared with the target, once with a fresh facade call per step and once with one command object per kind submitted again at every step (retry loop); each CHECK CONDITION step carries its own distinct sense data; later steps also range over ATA PASS-THROUGH(16) facade calls (GOOD / CHECK CONDITION / transport I/O error), a refused ATA call (no block size) and transport errors during TEST UNIT READY (EIO, ENODEV, ENODEV while the node is being replaced). "
         "states = distinct canonical device/facade snapshots reached, transitions = commands executed in histories. Non-trivial = status "
         "other than GOOD somewhere in the execution.")
@@ -235,6 +235,26 @@ def run_case(case, obs=None):
                     if obs is not None:
                         obs.append(snapshot(rig.dev, s))
                     continue
+                if ck == "attach":
+                    # the facade is pointed at another device (s(dev2)) whose INQUIRY is answered with this status: the attach is a
+                    # command like any other - it returns normally only on GOOD; afterwards the history goes on with the first device
+                    status = HSTAT[stname]
+                    triple = (2 + i, 0x20 + i, i)
+                    hs = fixed_sense(*triple) if i % 2 == 0 else desc_sense(*triple)
+                    SENSES["hist"] = (hs, triple)
+                    rig2 = harness.Rig(tr, 0x00)
+                    try:
+                        if status:
+                            rig2.target.script.append((status, hs))
+                        oc = attempt(lambda: s(rig2.dev))
+                        v = judge(tr, status, "hist", False, oc, None, "facade re-pointed by call")
+                        out += [(k, "step %d of %r: %s" % (i, steps, w)) for k, w in v]
+                    finally:
+                        s.device = rig.dev
+                        rig2.close()
+                    if obs is not None:
+                        obs.append(snapshot(rig.dev, s))
+                    continue
                 if stname == "KBI":
                     # the user's Ctrl-C arrives while the binding works on the command: it is no Exception, it reaches the caller as it
                     # is, and nothing of the interrupted call lingers for the next one
@@ -415,7 +435,7 @@ def run_partition(part, tier, seed):
     else:
         mode, tr, first, fst = part
         L = bounds(tier)["history_depth"]
-        alpha = [(c, s) for c in ("tur", "read10", "inquiry") for s in HSTAT] + [("ata", "GOOD"), ("ata", "CC"), ("ata", "ERR"), ("atabad", "-"), ("tur", "ERR"), ("tur", "ENODEV"), ("tur", "PLUGERR"), ("tur", "KBI"), ("ata", "KBI")]
+        alpha = [(c, s) for c in ("tur", "read10", "inquiry") for s in HSTAT] + [("ata", "GOOD"), ("ata", "CC"), ("ata", "ERR"), ("atabad", "-"), ("tur", "ERR"), ("tur", "ENODEV"), ("tur", "PLUGERR"), ("tur", "KBI"), ("ata", "KBI"), ("attach", "GOOD"), ("attach", "CC"), ("attach", "BUSY")]
         for n in range(1, L + 1):
             for rest in itertools.product(alpha, repeat=n - 1):
                 steps = [(first, fst)] + list(rest)
